@@ -365,7 +365,9 @@ public:
         // implicit BX declaration
         if (orthogonalizeInPlace(X, m_B, BX) != Eigen::Success)
         {
-            max_iter = 0;
+            // X is not a full-rank block (m_info says so) and BX has not been formed:
+            // there is nothing to iterate on
+            return;
         }
 
         AX = A * X;
